@@ -39,13 +39,13 @@ prop(
          "Grid enumerated, plus seeded random histories. distinct = (part, flavour or kind, limit set, size class, relation to limit)",
     design_ref="4 C10",
     level_text="After every chunk that the transport accepted without error the monitor reads verif_pending_chunks(): more "
-               "chunks than max_chunk_count, or more bytes (not counting the 24 header bytes per chunk) than max_message_size, "
+               "chunks than max_chunk_count, or more buffered bytes (chunk headers included: what the transport holds in memory) than max_message_size, "
                "is a violation; so is a reassembled and answered message of more chunks / body bytes than the limits. An "
                "error return ends the history (the reading loop closes the connection). For the codec: a header declaring "
                "more than max_message_size must give Err as soon as more than the 8 header bytes are buffered; Ok(None) "
                "(waiting) or a frame is a violation.",
-    level_note="Limits of 0 mean unlimited and make that half vacuous for the limit set concerned. Bytes are counted "
-               "leniently (bodies only). The codec may defer the rejection while exactly 8 bytes are buffered (its header "
+    level_note="Limits of 0 mean unlimited and make that half vacuous for the limit set concerned. Pending bytes are what verif_pending_chunks() reports (sum of the buffered chunks' lengths); the answered-message "
+               "half counts body bytes. The codec may defer the rejection while exactly 8 bytes are buffered (its header "
                "test is strict); that is tolerated. RSS is logged, not judged. The client's max_pending_incoming is not "
                "part of the statement and not checked.",
     shards={"quick": 8, "thorough": 16},
